@@ -344,7 +344,11 @@ def rule_l8(repo):
     calls = 0
     for mod in repo.source_modules():
         for f in mod.all_funcs:
-            for c in walk_no_nested(f.node, include_root=False):
+            fnode = f.node
+            if any(isinstance(n, ast.For) and any(isinstance(c, ast.Call) and call_attr(c) == 'add_data_type' for c in ast.walk(n)) for n in ast.walk(fnode)):
+                from ..normalize import unroll_literal_loops
+                fnode = unroll_literal_loops(fnode, max_elems=16)      # the tables declared by a loop over their names, written out
+            for c in walk_no_nested(fnode, include_root=False):
                 if not (isinstance(c, ast.Call) and call_attr(c) == 'add_data_type'):
                     continue
                 calls += 1
